@@ -1,4 +1,5 @@
 # props.py - per-property check definitions.
+import re
 import time
 
 from . import configs as C
@@ -332,9 +333,15 @@ def c13_units():
     return [enum_unit('exh_c13_%s' % n, 'targets/exh_c13.cpp', defines={'VF_CAT': str(i), 'VF_TNAME': '"exh_c13_%s"' % n}) for i, n in enumerate(('int', 'tr', 'ntr', 'tm'))]
 
 
+def c13_std_units():
+    """the int and throwing-move categories of the pair grid in the other language standards (swap_sizetype and kNbSlots have pre-C++17 code)"""
+    return [enum_unit('exh_c13_%s_cxx%s' % (n, sd), 'targets/exh_c13.cpp', std=sd, defines={'VF_CAT': str(i), 'VF_TNAME': '"exh_c13_%s_cxx%s"' % (n, sd)})
+            for sd in ('11', '14', '20') for i, n in ((0, 'int'), (3, 'tm'))]
+
+
 def check_C13(tier, seed, t0):
     cases, maxlen = budget(tier, (30000, 50), (300000, 60))
-    parts = [enum_part('C13', 'exhaustive_pairs', c13_units(), seed, tier, C13_GRID_RULE, shards=4),
+    parts = [enum_part('C13', 'exhaustive_pairs', c13_units() + c13_std_units(), seed, tier, C13_GRID_RULE, shards=4),
              interp_part('C13', 'vector_histories_same_type', vec_jobs([n for n, _ in C.VEC_CONFIGS], cases, maxlen), seed, VEC_RULES['C13'], True, crash_class_codes=[26])]
     parts[1].coverage['exhaustive'] = False
     parts += fuzz_parts('C13', tier, seed, ('vec',), True)
@@ -610,6 +617,7 @@ C16_RULE = ('tapes generated (rapidcheck, seed-derived) by the C01/C03/C04 gener
             'subset, thorough: all 32); oracle: byte-identical transcripts (effective op, contents, size, capacity after every op) and no model violation '
             'in any build; absence of the extras in pedantic builds is probed by SFINAE detection, of smallset.hpp before C++17 by a failing compile; the same probe prints compile-time facts (sizeof, alignof, noexcept of move/swap, trivially_relocatable, '
             'trivially destructible for 14 element types x 11 container types) that must be identical in every build; '
+            'the standard interface (23 vector members, 12 set members) is callable in every build; the C13 swap2 pair grid for int elements gives the same verdicts as C++11/14/17/20; '
             'non-trivial = tape with a boundary feature (C01/C03/C04 rule) replayed by builds of >= 2 language levels; distinct = distinct (config, transcript)')
 
 
@@ -639,7 +647,22 @@ def check_C16(tier, seed, t0, only=None):
            'transcripts_compared': st['transcripts'], 'ops_replayed_per_build': st['ops'], 'builds': r['builds'], 'groups': r['groups'],
            'absence_table': r['absence_table'], 'exhaustive': False}
     part = Part('differential_transcripts', cov, viol, r['wall'])
-    return finish('C16', tier, seed, 'exploration', [part], C16_RULE,
+    parts = [part]
+    if only is None:
+        # the swap2 pair grid (int elements) is one more fixed program: it must give the same verdicts in every language standard
+        units = [u for u in c13_units() if u.name == 'exh_c13_int'] + [u for u in c13_std_units() if '_int_' in u.name]
+        p2 = enum_part('C13', 'swap2_pair_grid_per_language_standard', units, seed, tier,
+                       'the C13 swap2 pair grid for int elements built as C++11/14/17/20: a grid point that fails in one standard only is a difference between '
+                       'configurations; non-trivial = C13 rule', crash_is_violation=True, shards=2)
+        p2.coverage['exhaustive'] = False
+        failing = set()
+        for (path, msg) in p2.violations:
+            m = re.search(r'exh_c13_int(_cxx\d+)?', path)
+            failing.add(m.group(0) if m else path)
+        if p2.violations and len(failing) >= 4:
+            p2.violations = []  # fails in every standard alike: a C13 matter, not a difference between configurations
+        parts.append(p2)
+    return finish('C16', tier, seed, 'exploration', parts, C16_RULE,
                   ['transcripts never contain addresses; layout is not compared', 'the builds use g++ 12 only'], t0)
 
 
@@ -674,7 +697,7 @@ def all_units():
         us += [vec_unit(n, s) for n in C.VEC_MULTISTD]
     us += [fs_unit(n) for n, _ in C.FS_CONFIGS]
     us += [fault_unit(n) for n, _ in FAULT_CONFIGS] + [fault_unit(n, sd) for n, sd in FAULT_MULTISTD]
-    us += c15_units() + [race_unit()] + c13_units() + bfs_units() + [enum_unit('exh_c10', 'targets/exh_c10.cpp'), enum_unit('exh_c08', 'targets/exh_c08.cpp'), enum_unit('static_c14', 'targets/static_c14.cpp'), enum_unit('alloc_c06', 'targets/alloc_c06.cpp')]
+    us += c15_units() + [race_unit()] + c13_units() + c13_std_units() + bfs_units() + [enum_unit('exh_c10', 'targets/exh_c10.cpp'), enum_unit('exh_c08', 'targets/exh_c08.cpp'), enum_unit('static_c14', 'targets/static_c14.cpp'), enum_unit('alloc_c06', 'targets/alloc_c06.cpp')]
     from . import c16
     us += [c16.unit(cfg, b) for cfg in c16.VEC + c16.FS + c16.SS for b in c16.QUICK_BUILDS if not (cfg in c16.SS and b[0] in ('11', '14'))]
     us += [enum_unit('exh_c12', 'targets/exh_c12.cpp'), enum_unit('growth_c18', 'targets/growth_c18.cpp', kind='plain'),
@@ -695,6 +718,13 @@ def replay(prop, path):
     for u in all_units():
         if u.name == cfg:
             unit = u
+    if prop == 'C16' and cfg.startswith('exh_c13') and unit is not None:
+        exe = D.ensure_built([unit])[unit.name]
+        rc, out, err = IC.replay_once(exe, 'C13', path)  # the swap2 grid point is judged by its own (C13) oracle in that build
+        print(out.strip())
+        if rc != 0:
+            print('VIOLATION property=C16 replay=%s' % path)
+        return 1 if rc != 0 else 0
     if prop == 'C16':
         if cfg == 'absence':
             return check_C16('quick', 1, time.time())
